@@ -643,7 +643,7 @@ fn exec_inner(op: &Op, dying: Option<&Node>) -> bool {
             let addr = verif::rcbox_addr(&r);
             let vp = Rc::as_ptr(&r) as usize;
             m(|m| {
-                m.objs.insert(o, Obj { alive: true, rc: true, addr, ..Obj::default() });
+                m.objs.insert(o, Obj { alive: true, rc: true, addr, addr_gen: alloc::block_gen(addr), ..Obj::default() });
                 m.addr_map.insert(addr, (o, 0));
                 m.ph.insert(h, o);
                 let n = m.objs.values().filter(|x| x.alive).count() as u64;
@@ -946,13 +946,13 @@ fn exec_inner(op: &Op, dying: Option<&Node>) -> bool {
                     m(|m| {
                         m.ph.remove(&h);
                         let ob = m.obj_mut(o);
-                        let (addr, epoch) = (ob.addr, ob.epoch);
+                        let (addr, epoch, gen) = (ob.addr, ob.epoch, ob.addr_gen);
                         ob.rc = false;
                         ob.epoch += 1;
                         ob.ever_recorded = false;
                         ob.selfsame = 0;
                         ob.had_table = false;
-                        m.old_allocs.push(OldAlloc { addr, obj: o, epoch });
+                        m.old_allocs.push(OldAlloc { addr, gen, obj: o, epoch });
                         m.ledger_purge(o);
                         m.loose.insert(v, o);
                     });
@@ -1012,6 +1012,7 @@ fn exec_inner(op: &Op, dying: Option<&Node>) -> bool {
                         let vp = Rc::as_ptr(&r) as usize;
                         m(|m| {
                             m.obj_mut(o2).addr = addr;
+                            m.obj_mut(o2).addr_gen = alloc::block_gen(addr);
                             m.addr_map.insert(addr, (o2, 0));
                         });
                         w(|w| w.as_ptr.insert((o2, 0), vp));
@@ -1032,6 +1033,7 @@ fn exec_inner(op: &Op, dying: Option<&Node>) -> bool {
                 }
                 m(|m| {
                     m.obj_mut(o2).addr = addr;
+                            m.obj_mut(o2).addr_gen = alloc::block_gen(addr);
                     m.addr_map.insert(addr, (o2, 0));
                 });
                 w(|w| {
@@ -1051,12 +1053,14 @@ fn exec_inner(op: &Op, dying: Option<&Node>) -> bool {
                 m(|m| {
                     let ob = m.obj_mut(o);
                     ob.epoch += 1;
+                    let old_gen = ob.addr_gen;
                     ob.addr = addr;
+                    ob.addr_gen = alloc::block_gen(addr);
                     ob.ever_recorded = false;
                     ob.selfsame = 0;
                         ob.had_table = false;
                     let ne = ob.epoch;
-                    m.old_allocs.push(OldAlloc { addr: old_addr, obj: o, epoch });
+                    m.old_allocs.push(OldAlloc { addr: old_addr, gen: old_gen, obj: o, epoch });
                     m.ledger_purge(o);
                     m.addr_map.insert(addr, (o, ne));
                     w(|w| w.as_ptr.insert((o, ne), vp));
@@ -1143,6 +1147,7 @@ fn exec_inner(op: &Op, dying: Option<&Node>) -> bool {
                         let vp = Rc::as_ptr(&sl.h) as usize;
                         m(|m| {
                             m.obj_mut(o2).addr = addr;
+                            m.obj_mut(o2).addr_gen = alloc::block_gen(addr);
                             m.addr_map.insert(addr, (o2, 0));
                             m.recompute_p();
                         });
@@ -1162,6 +1167,7 @@ fn exec_inner(op: &Op, dying: Option<&Node>) -> bool {
                 let vp = Rc::as_ptr(&sl.h) as usize;
                 m(|m| {
                     m.obj_mut(o2).addr = addr;
+                            m.obj_mut(o2).addr_gen = alloc::block_gen(addr);
                     m.addr_map.insert(addr, (o2, 0));
                     m.recompute_p();
                 });
@@ -1183,12 +1189,14 @@ fn exec_inner(op: &Op, dying: Option<&Node>) -> bool {
                 m(|m| {
                     let ob = m.obj_mut(t);
                     ob.epoch += 1;
+                    let old_gen = ob.addr_gen;
                     ob.addr = addr;
+                    ob.addr_gen = alloc::block_gen(addr);
                     ob.ever_recorded = false;
                     ob.selfsame = 0;
                     ob.had_table = false;
                     let ne = ob.epoch;
-                    m.old_allocs.push(OldAlloc { addr: old_addr, obj: t, epoch });
+                    m.old_allocs.push(OldAlloc { addr: old_addr, gen: old_gen, obj: t, epoch });
                     m.ledger_purge(t);
                     m.addr_map.insert(addr, (t, ne));
                     w(|w| w.as_ptr.insert((t, ne), vp));
@@ -1733,7 +1741,7 @@ fn check_memory() {
             continue;
         }
         st(St::p_c04_block_checks, 1);
-        let state = alloc::block_state(ob.addr);
+        let state = alloc::block_state_gen(ob.addr, ob.addr_gen);
         if ob.rc && (ob.alive || ob.zombie) {
             all_dead = false;
             expected_rcbox_live += 1;
@@ -1766,7 +1774,7 @@ fn check_memory() {
     }
     let olds: Vec<OldAlloc> = m(|m| m.old_allocs.clone());
     for oa in &olds {
-        let state = alloc::block_state(oa.addr);
+        let state = alloc::block_state_gen(oa.addr, oa.gen);
         let pinned = m(|m| m.nweak(oa.obj, oa.epoch)) > 0;
         if pinned {
             all_dead = false;
